@@ -952,6 +952,8 @@ def simplify(t, call_d=None):
             return ('ovf', v)
         if v[0] == 'phi':
             return ('phi', tuple(_dedup([simplify(('field', x, t[2])) for x in v[1]])))
+        if v[0] == 'downcast' and v[1][0] == 'okor' and t[2] == '0' and v[2] == 'Err' and v[1][2] is not None:
+            return v[1][2]
         if v[0] == 'downcast' and v[1][0] == 'okor' and t[2] == '0' and v[2] == 'Ok':
             return simplify(('field', simplify(('downcast', v[1][1], 'Some')), '0'))
         if v[0] == 'downcast' and v[1][0] == 'trybranch' and t[2] == '0':
